@@ -152,10 +152,12 @@ structure MemOk (st : St) : Prop where
   inverse : ∀ t a i, mv st.mem t a i ↔ (a ≠ [] ∧ fv st.files t i a)
   /-- no alias is listed with an empty index set -/
   nonempty : ∀ t a, st.mem.get (t, a) ≠ some []
+  /-- (since patch c20-14) every stored alias name is a valid name -/
+  aliasValid : ∀ t i a, fv st.files t i a → validIndex a = true
 
 theorem memOk_init : MemOk init :=
   ⟨by simp [init, AL.keys], by simp [init, AL.keys], by simp [init, AL.get], by simp [init, mv, fv, AL.get],
-   by simp [init, AL.get]⟩
+   by simp [init, AL.get], by simp [init, fv, AL.get]⟩
 
 theorem mem_of_get {m : M} (k : Nat × Key) (l : List Key) (h : m.get k = some l) : (k, l) ∈ m := by
   induction m with
@@ -200,12 +202,15 @@ theorem abs_step_files (st : St) (op : Op) (hg : op ≠ .graceful) : abs (step s
   cases op with
   | add t i a =>
     by_cases hv : validIndex i = true
-    · funext t' i'
-      simp only [step, hv, Bool.not_true, Bool.false_eq_true, if_false, specStep, abs, get_put, Spec.set]
-      by_cases hk : (t', i') = (t, i)
-      · obtain ⟨rfl, rfl⟩ := Prod.mk.inj hk; simp
-      · have : ¬ (t' = t ∧ i' = i) := fun ⟨h1, h2⟩ => hk (by rw [h1, h2])
-        simp [hk, this]
+    · by_cases ha : validIndex a = true
+      · funext t' i'
+        simp only [step, addAlias, hv, ha, Bool.not_true, Bool.false_eq_true, if_false, specStep, abs, get_put, Spec.set,
+          Bool.or_self]
+        by_cases hk : (t', i') = (t, i)
+        · obtain ⟨rfl, rfl⟩ := Prod.mk.inj hk; simp
+        · have : ¬ (t' = t ∧ i' = i) := fun ⟨h1, h2⟩ => hk (by rw [h1, h2])
+          simp [hk, this]
+      · simp [step, hv, ha, specStep]
     · simp [step, hv, specStep]
   | remove t i a =>
     by_cases hv : validIndex i = true
@@ -230,7 +235,8 @@ theorem abs_step_files (st : St) (op : Op) (hg : op ≠ .graceful) : abs (step s
 theorem out_ok_files (st : St) (op : Op) (h : ∀ t, op ≠ .list t) (h2 : ∀ t a, op ≠ .resolve t a) :
     OutOk (abs st) op (step st op).2 := by
   cases op with
-  | add t i a => by_cases hv : validIndex i = true <;> simp [step, hv, OutOk]
+  | add t i a =>
+    by_cases hv : validIndex i = true <;> by_cases ha : validIndex a = true <;> simp [step, addAlias, hv, ha, OutOk]
   | remove t i a =>
     by_cases hv : validIndex i = true
     · simp only [step, hv, Bool.not_true, Bool.false_eq_true, if_false, OutOk, res_removeFile]; rfl
@@ -339,7 +345,7 @@ theorem nodup_list_keys (m : M) (t : Nat) (h : m.keys.Nodup) :
 
 theorem memOk_restart {st : St} (h : MemOk st) : MemOk ({ files := st.files, mem := rebuild st.files } : St) := by
   obtain ⟨g1, g2, g3⟩ := fold_rebuild st.files [] (by simp [AL.get]) (by simp [AL.keys])
-  refine ⟨g3, h.fileNodup, h.valid, ?_, g2⟩
+  refine ⟨g3, h.fileNodup, h.valid, ?_, g2, h.aliasValid⟩
   intro t a i
   show mv (rebuild st.files) t a i ↔ _
   unfold rebuild
@@ -394,10 +400,22 @@ theorem step_memOk {st : St} (h : MemOk st) (op : Op) : MemOk (step st op).1 := 
   cases op with
   | add t i a =>
     by_cases hv : validIndex i = true
-    · simp only [step, hv, Bool.not_true, Bool.false_eq_true, if_false]
+    · by_cases ha0 : validIndex a = false
+      · simpa [step, hv, ha0] using h
+      have ha : validIndex a = true := by simpa using ha0
+      simp only [step, addAlias, hv, ha, Bool.not_true, Bool.false_eq_true, if_false]
       have hi : i ≠ [] := validIndex_ne_nil hv
       obtain ⟨g1, g2, g3⟩ := fold_putMem (insSet ((st.files.get (t, i)).getD []) a) t i st.mem h.nonempty h.memNodup
-      refine ⟨g3, keys_put_nodup _ _ _ h.fileNodup, ?_, ?_, g2⟩
+      refine ⟨g3, keys_put_nodup _ _ _ h.fileNodup, ?_, ?_, g2, ?_⟩
+      rotate_left 2
+      · intro t' i' a' hf
+        rw [fv_put] at hf
+        by_cases hk : (t', i') = (t, i)
+        · rw [if_pos hk] at hf
+          rcases (mem_insSet _ _ _).1 hf with h1 | h1
+          · exact h.aliasValid t i a' h1
+          · rw [h1]; exact ha
+        · rw [if_neg hk] at hf; exact h.aliasValid t' i' a' hf
       · intro t' i' l hl
         simp only [get_put] at hl
         by_cases hk : (t', i') = (t, i)
@@ -425,7 +443,13 @@ theorem step_memOk {st : St} (h : MemOk st) (op : Op) : MemOk (step st op).1 := 
   | remove t i a =>
     by_cases hv : validIndex i = true
     · simp only [step, hv, Bool.not_true, Bool.false_eq_true, if_false]
-      refine ⟨?_, keys_removeFile _ _ _ _ h.fileNodup, ?_, ?_, ?_⟩
+      refine ⟨?_, keys_removeFile _ _ _ _ h.fileNodup, ?_, ?_, ?_, ?_⟩
+      rotate_left 4
+      · intro t' i' a' hf
+        rw [fv_removeFile] at hf
+        by_cases hk : (t', i') = (t, i)
+        · rw [if_pos hk] at hf; exact h.aliasValid t i a' ((mem_delSet _ _ _).1 hf).1
+        · rw [if_neg hk] at hf; exact h.aliasValid t' i' a' hf
       · exact keys_removeMem _ _ _ _ h.memNodup
       · intro t' i' l hl
         simp only [get_removeFile] at hl
@@ -562,7 +586,10 @@ theorem frame (st : St) (op : Op) (t : Nat) (ht : op.tenant = some t) (t' : Nat)
   | add t0 i a =>
     simp only [Op.tenant, Option.some.injEq] at ht; subst ht
     by_cases hv : validIndex i = true
-    · simp only [step, hv, Bool.not_true, Bool.false_eq_true, if_false]
+    · by_cases ha0 : validIndex a = false
+      · simp [step, hv, ha0]
+      have ha : validIndex a = true := by simpa using ha0
+      simp only [step, addAlias, hv, ha, Bool.not_true, Bool.false_eq_true, if_false]
       constructor
       · intro i'
         simp only [abs, get_put]
